@@ -444,8 +444,36 @@ type checkResult struct {
 	boundedViolations int
 }
 
+var lineHashSuffix = regexp.MustCompile(`@[0-9a-f]{6}(#\d+)?$`)
+
+// siteName: an obligation name without the hash of its source line. Known findings and undecided obligations are
+// listed by full name; when the text of the line is edited without changing what it does, the hash changes. A
+// failed obligation is then still recognised if there is a listed entry with the same function, kind and detail
+// that no failed obligation of this run matches exactly (at most as many as there are such entries).
+func siteName(n string) string { return lineHashSuffix.ReplaceAllString(n, "") }
+
 func evaluate(p *Prog, pd *PropDef, encs []*Enc, lists *CheckLists, tier string, seed int, stats *SolveStats, opts SolveOpts) *checkResult {
 	r := &checkResult{funcs: map[string]bool{}}
+	// quotas for matching by site name: listed entries that no obligation of this run matches by full name
+	allNames := map[string]bool{}
+	for _, e := range encs {
+		for _, ob := range e.obs {
+			allNames[ob.Name] = true
+		}
+	}
+	knownQuota := map[string][]listEntry{}
+	for key, le := range lists.known {
+		if le.prop == pd.ID && !allNames[le.name] {
+			_ = key
+			knownQuota[siteName(le.name)] = append(knownQuota[siteName(le.name)], le)
+		}
+	}
+	undecQuota := map[string]int{}
+	for _, le := range lists.undecided {
+		if !allNames[le.name] {
+			undecQuota[siteName(le.name)]++
+		}
+	}
 	for _, e := range encs {
 		if e.failed != "" {
 			// an encoder failure in a function that the property depends on is fail-closed
@@ -484,6 +512,20 @@ func evaluate(p *Prog, pd *PropDef, encs []*Enc, lists *CheckLists, tier string,
 			if _, ok := lists.undecided[ob.Name]; ok && !ob.Discharged() {
 				r.undecided = append(r.undecided, ob)
 				continue
+			}
+			if !ob.Discharged() {
+				sn := siteName(ob.Name)
+				if q := knownQuota[sn]; len(q) > 0 {
+					knownQuota[sn] = q[1:]
+					r.known = append(r.known, ob)
+					r.lines = append(r.lines, fmt.Sprintf("KNOWN-FINDING: property=%s %s %s (listed as %s; the text of the line changed)", pd.ID, ob.Name, q[0].note, q[0].name))
+					continue
+				}
+				if undecQuota[sn] > 0 {
+					undecQuota[sn]--
+					r.undecided = append(r.undecided, ob)
+					continue
+				}
 			}
 			r.claimed = append(r.claimed, ob)
 			if ob.Discharged() {
